@@ -317,6 +317,6 @@ def run(tier):
         "MIN_INT as -9223372036854775807 - 1, infinities and NaN as quotients); the harness checks that each such "
         "text evaluates to the intended operand before using it, and skips the literal forms otherwise "
         "(two of the three NaN patterns of the grid)",
-        "64-bit grid: the 24 boundary values of DESIGN §6 C08" + (" plus 31 further ones" if thorough else ""),
+        "64-bit grid: the 24 boundary values of DESIGN §6 C08" + (" plus %d further ones" % (ng - 24) if thorough else ""),
     ]
     return chk.finish()
